@@ -54,6 +54,8 @@ def mn_text(mn):
 def op_text(o):
     if o["op"] == "SAVE":
         return "SAVE\n"
+    if o["op"] in ("RPTRSTI", "RPTSCHEDI"):
+        return "%s\n %s /\n" % (o["op"][:-1], " ".join(str(i) for i in o["ints"]))
     parts = []
     if o["op"] == "RPTRST":
         if o["basic"] != NONE:
@@ -116,6 +118,9 @@ def rand_mn(rng, allprops=False):
 
 def rand_op(rng):
     r = rng.random()
+    if r < 0.12:
+        return rng.choice([{"op": "RPTRSTI", "ints": rng.choice([[2], [0], [1], [3, 0, 1], [0, 1, 1, 0, 0, 2], [4, 0, 0, 0, 0, 0, 1], [5, 1, 0, 0, 0, 3, 0, 0, 1], [3, 0, 0, 0, 0, 0]])},
+                           {"op": "RPTSCHEDI", "ints": rng.choice([[1, 1], [0, 0, 0, 0, 0, 0, 2], [0, 0, 0, 0, 0, 0, 0, 1, 1], [0, 0, 0, 0, 0, 0, 1, 2], [0, 0, 0, 0, 0, 0, 3]])}])
     if r < 0.5:
         return {"op": "RPTRST", "basic": rng.choice([NONE, NONE, 0, 1, 2, 3, 3, 4, 4, 5, 5]), "freq": rng.choice([NONE, NONE, 0, 1, 2, 3, 5]), "mn": rand_mn(rng, True)}
     if r < 0.85:
@@ -187,5 +192,5 @@ def run(opts):
                 "calendars stepping 0-25 months") % len(scripts)
     chk.sample({"sol": scripts[0]["sol"], "blocks": scripts[0]["blocks"][:3]})
     chk.assumptions = ["not one of the listed properties: additional specification coverage (DESIGN.md 12.7)",
-                       "mnemonic-style input only (the positional integer style of RPTRST / RPTSCHED is not modelled)", "BASIC > 5 (refused by the library) is not generated"]
+                       "the positional integer style of RPTRST / RPTSCHED with fewer than 26 integers; RPTSOL in mnemonic style only", "BASIC > 5 (refused by the library) is not generated"]
     return chk.finish()
